@@ -1,9 +1,13 @@
 MODES_RULE = ("70 (quick) / 3000 (thorough) seeded histories of 20..70 ops on a real shard, alternately with and without write-cache, "
               "2 containers x 8 ids (ids 1..6 regular objects, some with an expiration epoch, 7 a tombstone and 8 a lock for one of them; "
               "one header per id): a writable prefix (put / delete / garbage mark default+redundant / container inhume+delete / revive / "
-              "Restore / FlushWriteCache / flush-worker pass / removeGarbage pass / new-epoch event with an unpaid container / reads), then "
+              "Restore / FlushWriteCache / flush-worker pass / `settle` = two ticks of the REAL write-cache flush scheduler (10 ms tick through "
+              "verifhook.Duration, parked otherwise) / removeGarbage pass / new-epoch event with an unpaid container / reads), then "
               "1..3 periods opened by SetMode (C14: mostly ReadOnly / DegradedReadOnly / Disabled; C43: any of the five modes, a third "
-              "of the switches with an injected component failure) each with 3..12 operations of the same mix incl. further switches, "
+              "of the switches with an injected component failure) each with 3..12 operations of the same mix incl. further switches; "
+              "C14: in every second period `reopen` (Shard.Close + Shard.Open without Init = engine BlockExecution/ResumeExecution) + settle "
+              "at a random point, every 10th history also in the writable prefix, every 12th history keeps the switches of known finding "
+              "C14-reopen-switch-flush; "
               "then SetMode(ReadWrite) and put / GC / flush / list. After EVERY op both sides print outcome class, reported mode, "
               "metabase mode + handle state, blobstor read-only flag, write-cache mode + store flag, blobstor and write-cache addresses, "
               "Exists of all 16 addresses; after every op executed in a reported read-only mode the digest (path, size, SHA-256) of every "
@@ -18,7 +22,10 @@ prop("C14",
      theorems=["NeoFS.ShardMode.ro_step", "NeoFS.ShardMode.ro_rejects", "NeoFS.ShardMode.ro_rejects_flush",
                "NeoFS.ShardMode.ro_frame", "NeoFS.ShardMode.ro_frame_prefix", "NeoFS.ShardMode.setMode_starts_period",
                "NeoFS.ShardMode.restart_starts_period", "NeoFS.ShardMode.setMode_establishes", "NeoFS.ShardMode.setMode_ro",
-               "NeoFS.ShardMode.ro_reads_meta", "NeoFS.ShardMode.ro_reads_object", "NeoFS.ShardMode.modes_table"],
+               "NeoFS.ShardMode.ro_reads_meta", "NeoFS.ShardMode.ro_reads_object", "NeoFS.ShardMode.modes_table",
+               "NeoFS.ShardMode.reopen_quiet", "NeoFS.ShardMode.setMode_quiet", "NeoFS.ShardMode.ro_quiet_step",
+               "NeoFS.ShardMode.ro_period_step", "NeoFS.ShardMode.ro_period_frame", "NeoFS.ShardMode.C14_counterexample",
+               "NeoFS.ShardMode.maintenance_cycle_facts"],
      engines=[dict(name="modes", quick=1, thorough=1)],
      claim="Lean proves over the shard-mode model, for EVERY state of a read-only period (reported mode read-only, blobstor opened "
            "read-only, write-cache in a read-only mode: what a successful fault-free switch establishes - setMode_starts_period) and "
@@ -34,7 +41,17 @@ prop("C14",
            "readOnly() test) are REGENERATED from the source into Gen/ShardMode.lean on every run; a removed guard turns its fact false "
            "and the proofs stop checking. The model is tied to the real shard by a differential history run, and the property's own "
            "oracle compares a content digest of every file under the shard directory (blobstor tree, write-cache tree, bolt file) before "
-           "and after every operation executed in a read-only mode.",
+           "and after every operation executed in a read-only mode. MAINTENANCE CYCLE: the model has the op `reopen` = Shard.Close + "
+           "Shard.Open WITHOUT Init (what StorageEngine.BlockExecution / ResumeExecution do to every shard: regenerated facts "
+           "engineBlock_closesShards, engineResume_opensShards, engineResume_initsShards = false) after which the shard keeps reporting its "
+           "mode while blobstor, bolt handle and write-cache are opened for writing again, and the op `settle` = the REAL flush scheduler "
+           "running for two ticks. ro_period_frame proves for EVERY sequence of a read-only period with close/open cycles at any point "
+           "(all requests, reads, GC pass, flush-worker pass, scheduler ticks, epoch handler, Restore, switches between read-only modes) "
+           "that stored data is unchanged, given the regenerated fact that cache.Open does not start the flush loop "
+           "(wcOpen_startsFlushLoop = false, pinned: a change that resumes the loop in Open breaks the proof) and provided no switch "
+           "to a mode without metabase follows a cycle before a switch to ReadOnly (legalPeriod); without the proviso the statement is "
+           "FALSE for the code: C14_counterexample, known finding C14-reopen-switch-flush (replayed from corpus/modes/c14-reopen.ops on "
+           "every run). reopen_quiet / setMode_quiet: the cycle itself moves nothing, and a switch to ReadOnly brings every component back.",
      note="Trusted: Lean kernel; hand model Model/ShardMode.lean (tied by correspondence; metabase content = Model/Meta.lean, blobstor and "
           "write-cache = address sets since an address always carries the same bytes); harness/extract/modes.go (AST pattern matcher for "
           "guards: an `if` whose condition calls .ReadOnly()/.NoMetabase() and whose body returns the mode error). Assumed, not proved: "
@@ -46,7 +63,13 @@ prop("C14",
           "this was a genuine violation - the configured mode was only reported, every component stayed writable and the write-cache "
           "flush workers kept moving objects to the blobstor (replayed: put, put, restart m=1, flushtick) - repaired in Shard.Init. A "
           "second defect found on the way and repaired (not a C14 violation): Shard.Delete panicked for a container unknown to the "
-          "metabase with write-cache on.",
+          "metabase with write-cache on. Two more defects found through the maintenance cycle and repaired: Shard.Open left the record "
+          "of how the blobstor is opened stale, so SetMode(READ_ONLY) after the cycle skipped the blobstor and left it writable for good "
+          "(replayed: put, setmode m=1, reopen, setmode m=1 -> blobro=0; then setmode m=3 moved the cache into the blobstor); "
+          "metabase.SetMode leaked the bolt handle Shard.Open leaves in a mode without metabase, its file lock made every later switch "
+          "to a mode with metabase fail (replayed: setmode m=3, reopen, setmode m=1 -> timeout). The scheduler's liveness is read from "
+          "hook points in unchanged code (start fault point, exit point); `settle` waits for two ticks, or 30 tick periods when no "
+          "scheduler shows up.",
      rule=MODES_RULE,
      trusted=["bbolt read-only open and FSTree's readOnly flag are exercised (digest oracle), not modelled below the guard level",
               "harness/extract/modes.go guard matcher"],
